@@ -14,11 +14,16 @@ EXTENDS Naturals, Integers, Sequences
 LOCAL BW == INSTANCE Bitwise
 
 Byte == 0..255
+
+(* TLC evaluates [i \in S |-> e] lazily, element by element and without caching; a chain
+   of such values (e.g. repeated shifts) re-evaluates exponentially.  SubSeq forces an
+   explicit tuple, so every operator below returns a fully evaluated tuple. *)
+Strict(f) == SubSeq(f, 1, Len(f))
 IsBV(a, n) == a \in [1..n -> Byte]
 
-Zero(n) == [i \in 1..n |-> 0]
-Ones(n) == [i \in 1..n |-> 255]
-One(n)  == [i \in 1..n |-> IF i = 1 THEN 1 ELSE 0]
+Zero(n) == Strict([i \in 1..n |-> 0])
+Ones(n) == Strict([i \in 1..n |-> 255])
+One(n)  == Strict([i \in 1..n |-> IF i = 1 THEN 1 ELSE 0])
 
 RECURSIVE FromNat(_, _)
 FromNat(v, n) == IF n = 0 THEN <<>> ELSE <<v % 256>> \o FromNat(v \div 256, n - 1)
@@ -36,7 +41,7 @@ IsNeg(a)  == Len(a) > 0 /\ a[Len(a)] >= 128
 (* two's-complement integer -> BV, for |v| < 2^31 *)
 FromInt(v, n) == IF v >= 0 THEN FromNat(v, n)
                  ELSE LET m == FromNat(-(v + 1), n)      \* -(v+1) = ~v
-                      IN [i \in 1..n |-> 255 - m[i]]
+                      IN Strict([i \in 1..n |-> 255 - m[i]])
 
 Trunc(a, n) == SubSeq(a, 1, n)
 ZExt(a, n)  == IF Len(a) >= n THEN Trunc(a, n) ELSE a \o Zero(n - Len(a))
@@ -51,7 +56,7 @@ AddC(a, b, c) == IF a = <<>> THEN <<>>
                  ELSE LET s == Head(a) + Head(b) + c
                       IN <<s % 256>> \o AddC(Tail(a), Tail(b), s \div 256)
 
-BNot(a)   == [i \in DOMAIN a |-> 255 - a[i]]
+BNot(a)   == Strict([i \in DOMAIN a |-> 255 - a[i]])
 Add(a, b) == AddC(a, b, 0)
 Neg(a)    == AddC(BNot(a), Zero(Len(a)), 1)
 Sub(a, b) == AddC(a, BNot(b), 1)
@@ -59,9 +64,9 @@ Sub(a, b) == AddC(a, BNot(b), 1)
 (* carry out of an unsigned addition: TRUE iff a + b >= 2^(8n) *)
 AddOverflows(a, b) == LET n == Len(a) IN Add(a \o <<0>>, b \o <<0>>)[n + 1] # 0
 
-BAnd(a, b) == [i \in DOMAIN a |-> BW!&(a[i], b[i])]
-BOr(a, b)  == [i \in DOMAIN a |-> BW!|(a[i], b[i])]
-BXor(a, b) == [i \in DOMAIN a |-> BW!^^(a[i], b[i])]
+BAnd(a, b) == Strict([i \in DOMAIN a |-> BW!&(a[i], b[i])])
+BOr(a, b)  == Strict([i \in DOMAIN a |-> BW!|(a[i], b[i])])
+BXor(a, b) == Strict([i \in DOMAIN a |-> BW!^^(a[i], b[i])])
 
 RECURSIVE ULt(_, _)
 ULt(a, b) == IF a = <<>> THEN FALSE
@@ -79,7 +84,7 @@ MulByte(a, k, c) == IF a = <<>> THEN <<>>
                          IN <<p % 256>> \o MulByte(Tail(a), k, p \div 256)
 
 (* shift left by whole bytes, truncated *)
-ShlBytes(a, k) == LET n == Len(a) IN [i \in 1..n |-> IF i - k >= 1 THEN a[i - k] ELSE 0]
+ShlBytes(a, k) == LET n == Len(a) IN Strict([i \in 1..n |-> IF i - k >= 1 THEN a[i - k] ELSE 0])
 
 RECURSIVE MulAcc(_, _, _, _)
 MulAcc(a, b, i, acc) == IF i > Len(b) THEN acc
@@ -94,9 +99,9 @@ MulWide(a, b) == LET n == Len(a) IN Mul(a \o Zero(n), b \o Zero(n))
 Pow2(k) == 2 ^ k      \* k <= 30
 
 Bit(a, i) == (a[((i - 1) \div 8) + 1] \div Pow2((i - 1) % 8)) % 2   \* i in 1..8n, 1 = LSB
-FromBits(f, n) == [j \in 1..n |->
+FromBits(f, n) == Strict([j \in 1..n |->
     f[8*(j-1)+1] + 2*f[8*(j-1)+2] + 4*f[8*(j-1)+3] + 8*f[8*(j-1)+4]
-    + 16*f[8*(j-1)+5] + 32*f[8*(j-1)+6] + 64*f[8*(j-1)+7] + 128*f[8*(j-1)+8]]
+    + 16*f[8*(j-1)+5] + 32*f[8*(j-1)+6] + 64*f[8*(j-1)+7] + 128*f[8*(j-1)+8]])
 
 (* shifts by a natural number k (any size that fits a TLC int) *)
 Shl(a, k) == LET n == Len(a) IN
@@ -135,7 +140,7 @@ SDiv(a, b) == LET q == UDiv(Abs(a), Abs(b))
 SRem(a, b) == LET r == UMod(Abs(a), Abs(b))
               IN IF IsNeg(a) THEN Neg(r) ELSE r
 
-Reverse(s) == [i \in 1..Len(s) |-> s[Len(s) + 1 - i]]
+Reverse(s) == Strict([i \in 1..Len(s) |-> s[Len(s) + 1 - i]])
 
 (* low k bits of a, k a natural number: a mod 2^k *)
 MaskBits(a, k) == LET n == Len(a) IN
